@@ -153,6 +153,31 @@ class PoolRun(object):
                         out = "raised:%s:%s" % (tid, same)
                 else:
                     out = "skip"
+            elif name == "cb":
+                # register a callback on the future of an earlier task of this thread
+                if op[1] < len(local):
+                    tid = local[op[1]]
+                    reg = "r%d.%d" % (ti, oi)
+                    kind = op[2]
+                    run = self
+
+                    def cb(result, exception, extra, reg=reg, tid=tid, kind=kind):
+                        exp = run.outcomes.get(tid)
+                        ok = exp is not None and ((exp[0] == "ret" and exp[1] is result and exception is None) or
+                                                  (exp[0] == "raise" and exp[1] is exception and result is None))
+                        s.emit("cb.call", reg, tid, ok, extra == reg)
+                        if kind == "raise":
+                            raise TaskError("callback " + reg)
+
+                    if kind == "partial":
+                        import functools
+
+                        cb = functools.partial(cb)
+                    s.emit("cb.reg", reg, tid)
+                    self.futures[tid].set_callback(cb, reg)
+                    out = "registered:%s" % tid
+                else:
+                    out = "skip"
             elif name == "join":
                 out = "join:%r" % (self.pool.join(op[1]),)
             elif name == "sleep":
